@@ -100,6 +100,19 @@ pub fn run(ctx: &Ctx) -> Value {
     for &t in &times {
         tw.emit(ev("t.acc", json!({"t": tod(t)}), || { let (pm, h12) = t.hour12();
             json!({"h": t.hour(), "mi": t.minute(), "s": t.second(), "ns": t.nanosecond(), "nsfm": t.num_seconds_from_midnight(), "h12": [pm, h12]}) }));
+        // the same accessors through the other implementors of Timelike (provided methods of the trait may or may not be overridden)
+        {
+            let x = chrono::NaiveDate::from_ymd_opt(2015, 6, 30).unwrap().and_time(t);
+            tw.emit(ev("t.acc", json!({"t": tod(t), "route": "NaiveDateTime"}), || { let (pm, h12) = x.hour12();
+                json!({"h": x.hour(), "mi": x.minute(), "s": x.second(), "ns": x.nanosecond(), "nsfm": x.num_seconds_from_midnight(), "h12": [pm, h12]}) }));
+            for off in [0, 3600, -34_230] {
+                use chrono::TimeZone;
+                if let Some(z) = chrono::FixedOffset::east_opt(off).unwrap().from_local_datetime(&x).single() {
+                    tw.emit(ev("t.acc", json!({"t": tod(t), "route": "DateTime<FixedOffset>", "off": off}), || { let (pm, h12) = z.hour12();
+                        json!({"h": z.hour(), "mi": z.minute(), "s": z.second(), "ns": z.nanosecond(), "nsfm": z.num_seconds_from_midnight(), "h12": [pm, h12]}) }));
+                }
+            }
+        }
         for (f, vals) in [("hour", vec![0u32, 11, 12, 23, 24, u32::MAX]), ("minute", vec![0, 30, 59, 60, u32::MAX]), ("second", vec![0, 58, 59, 60, u32::MAX]),
                           ("nanosecond", vec![0, 1, 999_999_999, 1_000_000_000, 1_999_999_999, 2_000_000_000, u32::MAX])] {
             for v in vals {
